@@ -77,4 +77,10 @@ def run(rep):
 
 
 def replay(path):
+    d = json.load(open(path))
+    fi = d.get("failing_input") or d.get("first_disagreement") or {}
+    case = fi.get("case") or {}
+    if "store_first" not in case and ("nodes" in case or "script" in case or "ops" in case):
+        import c06
+        return c06.replay(path)
     return c05.replay(path)
